@@ -96,6 +96,8 @@ struct PrimaryCase
     int kind2{-1};
     double energy2{0};
     D3 pos2{}, dir2{};
+    // primary times (native units) of the first / second primary; default 0 as before
+    double time{0}, time2{0};
 };
 
 // `extended`: also the two-primary and proton roots (only the C01/C05 harness runs those)
@@ -366,8 +368,12 @@ inline EventRun run_event(LoopProblem& P, PrimaryCase const& pc, Choices& c, uns
         auto st = P.make_stepper();
         st->reseed(UniqueEventId{0});
         Primary p[2] = {P.primary(pc.kind, pc.energy, pc.pos, pc.dir, 0), Primary{}};
+        p[0].time = pc.time;
         if (pc.kind2 >= 0)
+        {
             p[1] = P.primary(pc.kind2, pc.energy2, pc.pos2, pc.dir2, 0);
+            p[1].time = pc.time2;
+        }
         StepperResult r = (*st)(Span<Primary const>{p, pc.kind2 >= 0 ? 2u : 1u});
         out.results.push_back(r);
         out.calls = 1;
@@ -521,8 +527,9 @@ inline Verdict check_energy(LoopProblem const& P, PrimaryCase const& pc,
 //---------------------------------------------------------------------------//
 // C05 oracle: continuity and limits of each track's step history
 //---------------------------------------------------------------------------//
+// `pc` (optional): the event's primaries, for the birth-time claim of the primary tracks
 inline Verdict check_steps(LoopProblem const& P, std::vector<StepRec> const& recs,
-                           ProbeLog const* probes, Run& R)
+                           ProbeLog const* probes, Run& R, PrimaryCase const* pc = nullptr)
 {
     TrackMap tracks = group_tracks(recs);
     int const boundary = int(P.boundary_id.unchecked_get());
@@ -566,6 +573,54 @@ inline Verdict check_steps(LoopProblem const& P, std::vector<StepRec> const& rec
                 R.tag("steps:killed-at-initialisation(no volume)");
                 R.count("killed_at_initialisation");
                 continue;
+            }
+            if (k == 0 && s.parent == no_id && pc)
+            {
+                // a primary track is born at its primary's time (matched by particle, start
+                // point and energy; the two primaries of a root carry different times)
+                auto pid = [&](int kind) {
+                    return int((kind == 0   ? P.gamma
+                                : kind == 1 ? P.electron
+                                : kind == 2 ? P.positron
+                                            : P.proton)
+                                   .unchecked_get());
+                };
+                bool m1 = s.particle == pid(pc->kind) && s.pre.pos == pc->pos
+                          && s.pre.energy == pc->energy;
+                bool m2 = pc->kind2 >= 0 && s.particle == pid(pc->kind2) && s.pre.pos == pc->pos2
+                          && s.pre.energy == pc->energy2;
+                if (m1 || m2)
+                {
+                    if (!((m1 && s.pre.time == pc->time) || (m2 && s.pre.time == pc->time2)))
+                        return Verdict{"steps:primary-birth-time",
+                                       where()
+                                           + fmt(": first pre-step time %.17g, primary time %.17g",
+                                                 s.pre.time, m1 ? pc->time : pc->time2)};
+                    R.count("primary_time_checked");
+                }
+                else
+                    R.count("primary_time_unmatched");
+            }
+            if (k == 0 && s.parent != no_id)
+            {
+                // a secondary is born at its parent's time at the end of the step that emitted
+                // it (the parent's step whose post-step point is the birth point)
+                auto pit = tracks.find({s.event, s.parent});
+                bool found = false, ok = false;
+                if (pit != tracks.end())
+                    for (auto const* ps : pit->second.steps)
+                        if (ps->post.pos == s.pre.pos)
+                        {
+                            found = true;
+                            ok = ok || ps->post.time == s.pre.time;
+                        }
+                if (found && !ok)
+                    return Verdict{"steps:secondary-birth-time",
+                                   where()
+                                       + fmt(": first pre-step time %.17g is not the post-step time "
+                                             "of a step of parent %u ending at the birth point",
+                                             s.pre.time, s.parent)};
+                R.count(found ? "secondary_time_checked" : "secondary_time_unmatched");
             }
             if (s.step_count != k + 1)
                 return Verdict{"steps:count-not-consecutive",
